@@ -1,14 +1,20 @@
 from .common import COMMON_TB
 
 CFG = dict(
-    coq=["Properties/C06.v", "Properties/C06Mt.v", "Properties/C06Containers.v"],
+    coq=["Properties/C06.v", "Properties/C06Mt.v", "Properties/C06Containers.v", "Properties/C06Readers.v"],
     areas=["lzmadec", "mt", "c04"],
     level="proof",
     # c04's own oracle (content of damaged files) is C04's business; here only totality counts
     oracle_filter={"c04": r"PANIC|TIMEOUT|RUNAWAY|panic|hang|terminat|endless|without bound|HARNESS"},
     theorems_expected=["C06_decode_bit_never_panics", "C06_run_rc_total", "C06_window_rejects_far", "C06_decode_total", "C06_lzip_scan_total",
                        "C06_xz_decode_total", "C06_xz_decode_chain_total", "C06_xz_blockdec_shr", "C06_lzip_decode_total",
-                       "C06_xz_index_alloc_refuted", "C06_growing_rest_needs_fuel"],
+                       "C06_xz_index_alloc_refuted", "C06_growing_rest_needs_fuel",
+                       # Properties/C06Readers.v: the LZMA / LZMA2 reader models and the closed container theorems
+                       "C06_decode_post", "C06_bits_cost_input", "C06_lzma1_construct_total", "C06_lzma1_header_total",
+                       "C06_lzma1_read_total", "C06_lzma1_raw_total", "C06_lzma1_props_total", "C06_lzma1_hdr_total", "C06_zero_sizes_need_fuel",
+                       "C06_lzma2_new_total", "C06_lzma2_header_total", "C06_lzma2_read_total", "C06_lzma2_total",
+                       "C06_lzip_payload_dec_shr", "C06_lzip_payload_dec_n_shr", "C06_lzip_decode_c_total",
+                       "C06_lzma2_payload_dec_shrb", "C06_lzma2_payload_dec_n_shrb", "C06_xz_decode_c_total"],
     rule="cases = streams produced by the crate's LZMA/LZMA2 writers under random in-range options (plus trailing bytes), the same streams "
          "corrupted (bit flip, byte substitution, truncation, deletion, header flip) and random byte strings, each fed to LZMAReader "
          "(new_mem_limit / new_with_props / new) and LZMA2Reader with a destination-size history; the observation "
